@@ -3,7 +3,7 @@
    [labs s : key path -> option lock]; a lock is (holder, waiting clients in order with
    their pending acquire requests), so "at most one holder per key" holds by construction and
    the theorems say how each request changes that function and which requests it confirms. *)
-From WB Require Import Base.Str Base.Json Model.Key Model.Store Model.Core Proofs.StoreFacts Proofs.LockFacts Proofs.LockHistory Proofs.NoCrash Proofs.Unconditional.
+From WB Require Import Base.Str Base.Json Model.Key Model.Store Model.Core Proofs.StoreFacts Proofs.LockFacts Proofs.LockHistory Proofs.NoCrash Proofs.Unconditional Model.Codec Model.Session Proofs.WorldCore Proofs.WorldLocks.
 
 (* lock succeeds only on a free key or for the current holder; a refused lock changes nothing *)
 Theorem C06_lock_ok_iff_free_or_mine :
@@ -180,6 +180,35 @@ Example C06_history_nonvacuous :
 Proof. vm_compute. repeat split; reflexivity. Qed.
 
 (* non-vacuity: lock, two waiters, hand-over in order *)
+(* at the level of the sockets (Proofs/WorldCore.v, WorldLocks.v): over any history of events of a world -- lines of
+   every kind on any number of sessions, connections opening and closing -- the request ids resolved so far are pairwise
+   different, none of them is pending any more, every other id handed out still is; and the deferred answers of a step
+   are at most one message per id resolved in that step (C06_deferred_one_per_id), addressed through the table that
+   remembers who asked.  So no acquire is answered twice, or both confirmed and cancelled. *)
+Theorem C06_world_confirm_once :
+  forall auth es, Forall ev_ok es ->
+    let ops := ops_hist (world_init auth) es in
+    let s := w_core (wfinal (world_init auth) es) in
+    let R := resolved (trace init ops) in
+    NoDup R /\
+    (forall r, In r R -> (r < next_req s)%N /\ forall q c, ~ cpend s q c r) /\
+    (forall r, (r < next_req s)%N -> In r R \/ exists q c, cpend s q c r).
+Proof. exact world_confirm_once. Qed.
+Print Assumptions C06_world_confirm_once.
+
+Theorem C06_deferred_one_per_id :
+  forall w o, (exists evs, route_events w o = evs ++ deferred w o) /\
+              (length (deferred w o) <= length (o_granted o ++ o_cancelled o))%nat.
+Proof. intros w o. split; [apply route_events_deferred|apply deferred_length]. Qed.
+Print Assumptions C06_deferred_one_per_id.
+
+Example C06_world_nonvacuous :
+  let es := [SOpen 0; SOpen 1; SOpen 2; SMsg 0 (MLock 1 [108]%N); SMsg 1 (MAcquireLock 1 [108]%N); SMsg 2 (MAcquireLock 1 [108]%N);
+             SMsg 0 (MReleaseLock 2 [108]%N); SClose 2]%N in
+  resolved (trace init (ops_hist (world_init false) es)) = [0; 1]%N /\
+  snd (sstep (wfinal (world_init false) (firstn 6 es)) (SMsg 0 (MReleaseLock 2 [108]%N))) = [(1, SAck 1); (0, SAck 2)]%N.
+Proof. exact world_confirm_once_demo. Qed.
+
 Example C06_nonvacuous :
   map (fun o => (o_res o, o_granted o, o_cancelled o))
       (run init [OLock 1 [107]; OAcquire 2 [107]; OAcquire 3 [107]; ORelease 3 [107]; ORelease 1 [107]; ODisconnected 2]) =
